@@ -197,7 +197,7 @@ func builtinStringMatch(call FunctionCall) Value {
 		return objectValue(execResultToArray(call.runtime, target, result))
 	}
 
-	result := matcher.regExpValue().regularExpression.FindAllStringIndex(target, -1)
+	result := matcher.compiledRegExp().FindAllStringIndex(target, -1)
 	if result == nil {
 		matcher.put("lastIndex", intValue(0), true)
 		return nullValue // !match
@@ -267,7 +267,7 @@ func builtinStringReplace(call FunctionCall) Value {
 	find := 1
 	if searchValue.IsObject() && searchObject.class == classRegExpName {
 		regExp := searchObject.regExpValue()
-		search = regExp.regularExpression
+		search = searchObject.compiledRegExp()
 		if regExp.global {
 			find = -1
 			global = true
@@ -341,7 +341,7 @@ func builtinStringSearch(call FunctionCall) Value {
 	if !searchValue.IsObject() || search.class != classRegExpName {
 		search = call.runtime.newRegExp(searchValue, Value{})
 	}
-	result := search.regExpValue().regularExpression.FindStringIndex(target)
+	result := search.compiledRegExp().FindStringIndex(target)
 	if result == nil {
 		return intValue(-1)
 	}
@@ -374,7 +374,7 @@ func builtinStringSplit(call FunctionCall) Value {
 
 	if separatorValue.isRegExp() {
 		targetLength := len(target)
-		search := separatorValue.object().regExpValue().regularExpression
+		search := separatorValue.object().compiledRegExp()
 		valueArray := []Value{}
 		result := search.FindAllStringSubmatchIndex(target, -1)
 		if targetLength == 0 && result != nil {
